@@ -32,6 +32,16 @@ func bitsEqual(a, b []float64) bool {
 
 func snap(d []float64) []float64 { return append([]float64(nil), d...) }
 
+// fmtData formats path data that may no longer be decodable (overwritten by an aliasing write).
+func fmtData(d []float64) (s string) {
+	defer func() {
+		if recover() != nil {
+			s = fmt.Sprintf("undecodable data %v", d)
+		}
+	}()
+	return oracle.Fmt(d)
+}
+
 // partner paths for the Boolean operations. The open one returns to its start with a LineTo
 // (no Close), the shape in which an in-place Close is visible in the data.
 func partnerClosed() *canvas.Path {
@@ -62,6 +72,9 @@ type pureCall struct {
 	extra bool
 	// run calls the method on p, handing every argument object through a (which snapshots it).
 	run func(p *canvas.Path, a *args)
+	// writesReceiver: the probe itself extends the receiver after the call (the receiver
+	// comparison is then skipped, the probe reports through args.found)
+	writesReceiver bool
 }
 
 // args holds the argument objects of one call together with their values at the time they were
@@ -75,6 +88,7 @@ type args struct {
 	pslice    []canvas.Paths
 	psElems   [][]*canvas.Path
 	psData    [][][]float64
+	found     []Finding // problems a probe found by itself
 }
 
 func (a *args) path(p *canvas.Path, role string) *canvas.Path {
@@ -285,6 +299,49 @@ func pureCalls() (all []pureCall, core []pureCall) {
 		A("ReplaceArcs+extend-result", func(p *canvas.Path, a *args) { ext(p, p.ReplaceArcs()) }),
 		A("Dash+extend-result", func(p *canvas.Path, a *args) { ext(p, p.Dash(0.5, 0.5, 0.25)) }),
 	)
+	// results must also survive later writes: each result is extended (snapshot taken right after),
+	// then the receiver is extended; a result that shares spare capacity with the receiver or with
+	// a sibling (also one returned by a second call) is overwritten by a later extension
+	indep := func(name string, derive func(p *canvas.Path) []*canvas.Path) pureCall {
+		return pureCall{name: name + ": results independent of later writes", group: name + "-result-aliases", role: "receiver", writesReceiver: true,
+			run: func(p *canvas.Path, a *args) {
+				qs := append(derive(p), derive(p)...)
+				var snaps [][]float64
+				for k, q := range qs {
+					if q == nil || q == p {
+						snaps = append(snaps, nil)
+						continue
+					}
+					if k%2 == 0 {
+						q.LineTo(7.5, 7.25)
+					} else {
+						q.QuadTo(6.5, 7.25, 7.5, 6.25)
+					}
+					snaps = append(snaps, snap(q.Data()))
+				}
+				p.MoveTo(8.5, 8.25)
+				p.CubeTo(9.5, 8.25, 9.5, 9.25, 8.5, 9.25)
+				for k, q := range qs {
+					if snaps[k] != nil && !bitsEqual(snaps[k], q.Data()) {
+						a.found = append(a.found, Finding{name + "-result-aliases", fmt.Sprintf("result %d of %d (two calls) was %s after extending it, is %s after extending its siblings and the receiver", k, len(qs), oracle.Fmt(snaps[k]), fmtData(q.Data()))})
+						return
+					}
+				}
+			}}
+	}
+	one := func(f func(p *canvas.Path) *canvas.Path) func(p *canvas.Path) []*canvas.Path {
+		return func(p *canvas.Path) []*canvas.Path { return []*canvas.Path{f(p)} }
+	}
+	all = append(all,
+		C(indep("Split", func(p *canvas.Path) []*canvas.Path { return p.Split() })),
+		indep("SplitAt", func(p *canvas.Path) []*canvas.Path { return p.SplitAt(0.5, 1.5) }),
+		indep("Copy", one(func(p *canvas.Path) *canvas.Path { return p.Copy() })),
+		indep("Reverse", one(func(p *canvas.Path) *canvas.Path { return p.Reverse() })),
+		indep("Flatten", one(func(p *canvas.Path) *canvas.Path { return p.Flatten(0.1) })),
+		indep("ReplaceArcs", one(func(p *canvas.Path) *canvas.Path { return p.ReplaceArcs() })),
+		indep("Dash", one(func(p *canvas.Path) *canvas.Path { return p.Dash(0.5, 0.5, 0.25) })),
+		indep("Transform", one(func(p *canvas.Path) *canvas.Path { return p.Copy().Transform(canvas.Identity.Translate(1, 0)) })),
+	)
 	B := func(name, role string, run func(p *canvas.Path, a *args)) pureCall {
 		return pureCall{name: name, group: "boolean-op", role: role, run: run}
 	}
@@ -373,7 +430,10 @@ func CheckTotalityPurity(mk func() *canvas.Path, coreOnly bool) (fs []Finding, e
 			}()
 			c.run(p, a)
 		}()
-		recvMutated := !bitsEqual(before, p.Data())
+		for _, f := range a.found {
+			add(f)
+		}
+		recvMutated := !c.writesReceiver && !bitsEqual(before, p.Data())
 		if recvMutated {
 			add(Finding{c.role + "-path-mutated:" + c.group, fmt.Sprintf("path was %s, is now %s", oracle.Fmt(before), oracle.Fmt(p.Data()))})
 		}
